@@ -1058,6 +1058,38 @@ theorem select_pipeline (nullsFirst : Bool) (db : Db) (q : Select) (out : List R
         simp only [finish]
         cases q.distinct <;> rfl
 
+/-- INSERT with a column list: well-formed iff the list has as many columns as the row has values, names no column twice
+    and only columns of the table; then column j of the stored row is the value written for it, NULL if it is not listed -/
+theorem insert_column_list_def (ncols : Nat) (cols : List Nat) (row : List Expr) :
+    (expandCols ncols cols row = none ↔ (cols.length ≠ row.length ∨ ¬ cols.Nodup ∨ ∃ c ∈ cols, ncols ≤ c)) ∧
+    (∀ full, expandCols ncols cols row = some full →
+      full.length = ncols ∧
+      ∀ j, j < ncols → full[j]? = some (match (cols.zip row).find? (fun p => p.1 == j) with
+        | some p => p.2
+        | none => .lit .null)) := by
+  constructor
+  · simp only [expandCols]
+    by_cases h1 : cols.length = row.length <;> by_cases h2 : cols.Nodup <;>
+      by_cases h3 : ∃ c ∈ cols, ncols ≤ c <;> simp_all
+  · intro full h
+    simp only [expandCols] at h
+    split at h
+    · cases h
+    · simp only [Option.some.injEq] at h
+      subst h
+      refine ⟨by simp, fun j hj => ?_⟩
+      simp [hj]
+      rfl
+
+/-- `INSERT INTO t (c2, c0) VALUES (x, y)` on a table of three columns stores (y, NULL, x); a list naming a column twice,
+    naming a column the table does not have, or with a value too few is ill-formed -/
+theorem insert_column_list_examples :
+    expandCols 3 [2, 0] [.lit (.int 7), .lit (.int 8)] = some [.lit (.int 8), .lit .null, .lit (.int 7)] ∧
+    expandCols 3 [1, 1] [.lit (.int 7), .lit (.int 8)] = none ∧
+    expandCols 3 [3] [.lit (.int 7)] = none ∧
+    expandCols 3 [0, 1] [.lit (.int 7)] = none := by
+  refine ⟨by rfl, by rfl, by rfl, by rfl⟩
+
 /-- a statement that fails changes nothing; a SELECT never changes anything -/
 theorem failed_statement_no_effect (nullsFirst : Bool) (db : Db) (s : Stmt) (e : Err) (db' : Db)
     (h : execStmt .none nullsFirst db s = (db', .error e)) : db' = db := by
